@@ -1,4 +1,5 @@
 import Sm9.Proofs.JacobianInst2
+import Sm9.Proofs.SpecCurve
 /-!
 # C04 — G1 and G2 addition, subtraction and negation implement the curve group law
 
@@ -75,5 +76,16 @@ theorem sub_def {F} [FieldElement F] (a b : G F) : a.sub b = a.add b.neg := rfl
 example : G1.Valid (G.one : G1) := G1.one_valid
 example : G1.Valid ((G.one : G1).add G.one) := G1.add_valid _ _ G1.one_valid G1.one_valid
 example : G2.Valid ((G.one : G2).add G.one) := G2.add_valid _ _ G2.one_valid G2.one_valid
+
+/-! ## against the independent textbook chord-and-tangent implementation
+
+`Sm9.Spec.ptAdd` (the oracle of the correspondence run: affine points as `Option (x, y)` over naturals, slope by
+`(y₂−y₁)/(x₂−x₁)` or `3x²/2y`, written without reference to Mathlib or to the Jacobian code) computes Mathlib's group law
+on the twist (Proofs/SpecCurve.lean), which the model's Jacobian `add` refines (above).  So `A + B` of the model is the
+result of the textbook affine law as computed by the independent implementation — for G2, every pair of points. -/
+open Sm9.SpecCurve in
+theorem g2_add_is_independent_chord_tangent (P Q : G2) (hP : G2.Valid P) (hQ : G2.Valid Q) :
+    Spec.ptAdd Spec.opsQ2 (encPt (G2.toAff P)) (encPt (G2.toAff Q)) = encPt (G2.toAff (P.add Q)) := by
+  rw [G2.add_correct P Q hP hQ]; exact ptAdd_eq _ _
 
 end Sm9.C04
